@@ -179,10 +179,12 @@ fn to_quadratic(coeff_map: &HashMap<(usize, usize), f64>) -> v1::Quadratic {
     let mut rows = Vec::with_capacity(coeff_map.len());
     let mut columns = Vec::with_capacity(coeff_map.len());
     let mut values = Vec::with_capacity(coeff_map.len());
+    // The file lists the lower triangle of the symmetric matrix Q of `1/2 x'Qx`:
+    // an off-diagonal entry stands for both (i, j) and (j, i), a diagonal entry is halved.
     for ((row, col), val) in coeff_map.iter() {
         rows.push(*row as u64);
         columns.push(*col as u64);
-        values.push(*val);
+        values.push(if row == col { *val / 2.0 } else { *val });
     }
     v1::Quadratic {
         rows,
